@@ -15,7 +15,7 @@ import (
 func init() {
 	register(&Prop{
 		ID:         "C07",
-		Decided:    "(1) in processAggregationResults the clauses run in relational order on every path: DISTINCT, HAVING, strip of hidden HAVING columns, ORDER BY, LIMIT, delivery; (2) LIMIT keeps a prefix results[:Limit] and only when len>Limit; (3) every hidden-column family the parser creates (__having_N__, __winagg_N__) has a strip site with a matching prefix in the stream package; (3b) a HAVING aggregate call is bound only to the alias of that very call text, to the call text itself, or to a freshly registered hidden aggregate; (4) compareOrderValues returns -1/0/+1 exactly for a<b / a=b / a>b on numbers (NaN unordered => 0), times and strings; Sorter.less uses c<0 for ASC and c>0 for DESC and continues to the next key on ties. Also: the batch handed to the result channel and the sinks is never backed by storage the engine keeps (field or package variable); text heuristics that cut 'first ( … last )' prove that the call spans the text (or every caller does); an aggregate registered from ParseAggregateTypeWithExpression is registered together with its expression argument.",
+		Decided:    "(1) in processAggregationResults the clauses run in relational order on every path: DISTINCT, HAVING, strip of hidden HAVING columns, ORDER BY, LIMIT, delivery; (2) LIMIT keeps a prefix results[:Limit] and only when len>Limit; (3) every hidden-column family the parser creates (__having_N__, __winagg_N__) has a strip site with a matching prefix in the stream package; (3b) a HAVING aggregate call is bound only to the alias of that very call text, to the call text itself, or to a freshly registered hidden aggregate; (4) compareOrderValues returns -1/0/+1 exactly for a<b / a=b / a>b on numbers (NaN unordered => 0), times and strings; Sorter.less uses c<0 for ASC and c>0 for DESC and continues to the next key on ties. Also: the batch handed to the result channel and the sinks is never backed by storage the engine keeps (field or package variable); text heuristics that cut 'first ( … last )' prove that the call spans the text (or every caller does); an aggregate registered from ParseAggregateTypeWithExpression is registered together with its expression argument. Also: a HAVING predicate that cannot be compiled filters everything out (never returns its input); float ORDER BY keys are converted to integers only after an integrality test; clause-text loops can end at every later clause keyword.",
 		NotDecided: "the arithmetic of post-aggregation expressions and the classification of SELECT items, HAVING truth values, DISTINCT's JSON-based equality, aggregate values.",
 		Run:        runC07,
 	})
